@@ -74,4 +74,4 @@ def run_case(case):
 
 
 def shrink_candidates(case):
-    yield from common.shrink_case(case)
+    yield from c06.shrink_candidates(case)
